@@ -1,12 +1,26 @@
 (* Property C04, n-port part.  The executable model of the n-port functions (LV.Conv.ConvN on
    LV.Lin.LuModel) is tied to the C code by exact-rational correspondence for n = 1..6 on every
-   run (checks/convn_check.py); the theorems here state that at n = 2 that model equals the
-   translated two-port functions, for either pivot order, and hence inherits Properties_C04.
-   vnaconv_ytozin is covered by the correspondence only (no n = 2 theorem). *)
+   run (checks/convn_check.py).  Two groups of theorems about that model:
+   (1) n = 2: the model equals the translated two-port functions, for either pivot order, and hence
+       inherits Properties_C04.  Each theorem carries, besides the singular-set hypothesis X_ok of the
+       two-port function, a PIVOT hypothesis `if swap then .. <> 0 else .. <> 0`: the entry that the
+       chosen pivot order divides by (the first pivot of I - S, Z + Z0, ...) must be nonzero.  The
+       theorems are stated for the two constant comparators; c04_lu2_two_pivot_orders shows that every
+       comparator behaves like one of them at n = 2, and Properties_C19.c19_pivots_nonzero_iff_nonsingular
+       (every n) shows that the real comparator (order premises, discharged at Qc) meets a nonzero pivot
+       whenever the factored matrix is nonsingular; the two are not composed into one n = 2 statement.
+       Non-vacuity of both hypotheses for both pivot orders: c04n_hypotheses_satisfiable.
+       vnaconv_ytozin is covered by the correspondence only (no n = 2 theorem).
+   (2) ALL n: the matrix returned by the model of vnaconv_stozn / stoyn / ztosn / ytosn / ztoyn / ytozn
+       satisfies its own port relation of vnaconv(3) for exactly the electrical states that satisfy
+       the input's relation (c04_*_same_states_all_n), stated at Q[i] with hypotheses on the INPUT only
+       (the factored matrix has a trivial kernel; k_j <> 0; z_j + conj z_j <> 0), the pivot hypothesis
+       being discharged by C19's theorem; the abstract-field versions (with pivots_nonzero as a premise)
+       are Conv/ConvNModel.v.  The three *zin functions have no all-n theorem. *)
 Require Import List.
 Import ListNotations.
-Require Import LV.Base.CField LV.Lin.MatL LV.Lin.LuModel LV.Lin.Lu2Cases LV.Conv.ConvN LV.Conv.ConvRel
-               LV.Conv.ConvN2.
+Require Import LV.Base.CField LV.Base.QcI LV.Lin.MatL LV.Lin.LuModel LV.Lin.LuQI LV.Lin.Lu2Cases LV.Conv.ConvN LV.Conv.ConvRel
+               LV.Conv.ConvN2 LV.Conv.ConvExamples LV.Conv.ConvN2Examples LV.Lin.LuGenA LV.Lin.LuNonsing LV.Conv.ConvNModel LV.Conv.ConvNModelQI.
 Require Import LV.Gen.Conv2_s LV.Gen.Conv2_z LV.Gen.Conv2_y LV.Gen.Conv2_zi.
 Local Open Scope cf_scope.
 
@@ -78,3 +92,93 @@ Print Assumptions c04_ztoyn_eq_ztoy.
 Print Assumptions c04_ytozn_eq_ytoz.
 Print Assumptions c04_ztozin_eq_ztozi.
 Print Assumptions c04_stozin_eq_stozi.
+
+(* ---- non-vacuity of group (1): singular-set and pivot hypotheses, both pivot orders ---- *)
+Theorem c04n_hypotheses_satisfiable :
+  (stoz_ok QIF ex_m ex_z1 ex_z2 /\
+   forall swap : bool, if swap then m21 ex_m <> @c0 QIF else @csub QIF (@c1 QIF) (m11 ex_m) <> @c0 QIF) /\
+  (ztos_ok QIF ex_m ex_z1 ex_z2 /\
+   forall swap : bool, if swap then m21 ex_m <> @c0 QIF else @cadd QIF (m11 ex_m) ex_z1 <> @c0 QIF) /\
+  (stoy_ok QIF ex_m ex_z1 ex_z2 /\
+   forall swap : bool, if swap then m21 ex_m <> @c0 QIF /\ ex_z1 <> @c0 QIF
+                       else @cadd QIF (@cmul QIF (m11 ex_m) ex_z1) (@cj QIF ex_z1) <> @c0 QIF) /\
+  (ytos_ok QIF ex_m ex_z1 ex_z2 /\
+   forall swap : bool, if swap then ex_z2 <> @c0 QIF /\ m21 ex_m <> @c0 QIF
+                       else @cadd QIF (@cmul QIF ex_z1 (m11 ex_m)) (@c1 QIF) <> @c0 QIF) /\
+  (ztoy_ok QIF ex_m ex_z1 ex_z2 /\
+   forall swap : bool, if swap then m21 ex_m <> @c0 QIF else m11 ex_m <> @c0 QIF) /\
+  (ytoz_ok QIF ex_m ex_z1 ex_z2 /\
+   forall swap : bool, if swap then m21 ex_m <> @c0 QIF else m11 ex_m <> @c0 QIF) /\
+  (ztozi_ok QIF ex_m ex_z1 ex_z2 /\
+   forall swap : bool, if swap then m21 ex_m <> @c0 QIF else @cadd QIF (m11 ex_m) ex_z1 <> @c0 QIF).
+Proof.
+  exact (conj c04n_hyps_stozn (conj c04n_hyps_ztosn (conj c04n_hyps_stoyn (conj c04n_hyps_ytosn
+          (conj c04n_hyps_ztoyn (conj c04n_hyps_ytozn c04n_hyps_ztozin)))))).
+Qed.
+Print Assumptions c04n_hypotheses_satisfiable.
+
+(* ---- group (2): all n, the executable model at Q[i], hypotheses on the input only.
+   relSn / relZn / relYn: the port relations of vnaconv(3) for n ports, b = S a with
+   a_j = (v_j + z_j i_j) / (2 k_j), b_j = (v_j - conj z_j i_j) / (2 k_j); v = Z i; i = Y v. ---- *)
+Theorem c04_stozn_same_states_all_n n (z0 : list QIF) (s : mat QIF) : k_ok QIF n z0 ->
+  kernel_trivial QIF (m_one_minus_s QIF n s) n ->
+  forall v i : nat -> QIF, relSn QIF n s z0 v i <-> relZn QIF n (q_stozn n s z0) v i.
+Proof. exact (q_stozn_same_states n z0 s). Qed.
+Print Assumptions c04_stozn_same_states_all_n.
+
+Theorem c04_stoyn_same_states_all_n n (z0 : list QIF) (s : mat QIF) : k_ok QIF n z0 ->
+  kernel_trivial QIF (m_sz_plus_zc QIF n s z0) n ->
+  forall v i : nat -> QIF, relSn QIF n s z0 v i <-> relYn QIF n (q_stoyn n s z0) v i.
+Proof. exact (q_stoyn_same_states n z0 s). Qed.
+Print Assumptions c04_stoyn_same_states_all_n.
+
+Theorem c04_ztosn_same_states_all_n n (z0 : list QIF) (z : mat QIF) : k_ok QIF n z0 -> zsum_ok QIF n z0 ->
+  kernel_trivial QIF (m_z_plus_z0 QIF n z z0) n ->
+  forall v i : nat -> QIF, relZn QIF n z v i <-> relSn QIF n (q_ztosn n z z0) z0 v i.
+Proof. exact (q_ztosn_same_states n z0 z). Qed.
+Print Assumptions c04_ztosn_same_states_all_n.
+
+Theorem c04_ytosn_same_states_all_n n (z0 : list QIF) (y : mat QIF) : k_ok QIF n z0 -> zsum_ok QIF n z0 ->
+  kernel_trivial QIF (m_one_plus_zy QIF n y z0) n ->
+  forall v i : nat -> QIF, relYn QIF n y v i <-> relSn QIF n (q_ytosn n y z0) z0 v i.
+Proof. exact (q_ytosn_same_states n z0 y). Qed.
+Print Assumptions c04_ytosn_same_states_all_n.
+
+Theorem c04_ztoyn_same_states_all_n n (z : mat QIF) : wf n n z -> kernel_trivial QIF z n ->
+  forall v i : nat -> QIF, relZn QIF n z v i <-> relYn QIF n (q_ztoyn n z) v i.
+Proof. exact (q_ztoyn_same_states n z). Qed.
+Print Assumptions c04_ztoyn_same_states_all_n.
+
+Theorem c04_ytozn_same_states_all_n n (y : mat QIF) : wf n n y -> kernel_trivial QIF y n ->
+  forall v i : nat -> QIF, relYn QIF n y v i <-> relZn QIF n (q_ytozn n y) v i.
+Proof. exact (q_ytozn_same_states n y). Qed.
+Print Assumptions c04_ytozn_same_states_all_n.
+
+(* the link to the specification Conv/ConvNSpec.v: the model's output is K X K^-1 where X solves the
+   very linear system whose solution the specification writes as invmx A *m B (abstract field, the
+   pivot premise as in Properties_C19.c19_lu_solves_if_pivots_nonzero) *)
+Theorem c04_stozn_defining_system_all_n (K : CField) (M : Type) nrm2 mulM ltM zeroM scale_of_max n (s : mat K) z0 :
+  LuProofs.pivots_nonzero K M nrm2 mulM ltM zeroM scale_of_max (m_one_minus_s K n s) n ->
+  exists x : mat K,
+    (forall r k, r < n -> k < n ->
+       sumf n (fun t => mget K (m_one_minus_s K n s) r t * mget K x t k) = mget K (m_sz_plus_zc K n s z0) r k) /\
+    (forall r k, r < n -> k < n ->
+       mget K (stozn K M nrm2 mulM ltM zeroM scale_of_max n s z0) r k =
+       if Nat.eqb r k then mget K x r k else mget K x r k * (kn K z0 r / kn K z0 k)).
+Proof. exact (stozn_defining_eq K M nrm2 mulM ltM zeroM scale_of_max n s z0). Qed.
+Print Assumptions c04_stozn_defining_system_all_n.
+
+(* non-vacuity of group (2): a 3-port S matrix with z0 = (4+3i, 9-2i, 1); every hypothesis is
+   discharged (trivial kernels through computed left inverses), then S -> Z -> S, Z -> Y -> S *)
+Theorem c04_all_n_hypotheses_satisfiable :
+  k_ok QIF 3 ex3_z0 /\ zsum_ok QIF 3 ex3_z0 /\
+  kernel_trivial QIF (m_one_minus_s QIF 3 ex3_s) 3 /\
+  kernel_trivial QIF (m_sz_plus_zc QIF 3 ex3_s ex3_z0) 3 /\
+  kernel_trivial QIF (m_z_plus_z0 QIF 3 ex3_z ex3_z0) 3 /\
+  (wf 3 3 ex3_z /\ kernel_trivial QIF ex3_z 3) /\
+  kernel_trivial QIF (m_one_plus_zy QIF 3 ex3_y ex3_z0) 3.
+Proof.
+  exact (conj ex3_k_ok (conj ex3_zsum_ok (conj ex3_one_minus_s_trivial (conj ex3_sz_plus_zc_trivial
+          (conj ex3_z_plus_z0_trivial (conj (conj ex3_z_wf ex3_z_trivial) ex3_one_plus_zy_trivial)))))).
+Qed.
+Print Assumptions c04_all_n_hypotheses_satisfiable.
